@@ -9,6 +9,7 @@ compared with a bytearray model.
 import sys, os, struct
 from vlib import gen, core
 
+MEMCHECK_SAMPLE = 4
 RULE = ("case = one history of 60 random operations (index read/write with i in -n-2..n+2 and "
         "huge values, slices with/without step and missing bounds, writes through slices, slice "
         "assignment from list/tuple/bytes/array cdata/generator of right and wrong length, pointer "
